@@ -235,11 +235,8 @@ func genOpts(r *rng.R) wopts {
 	if r.Chance(1, 3) {
 		o.flags = 0
 	}
-	// RestartCompression without compression panics in the writer (genuine defect, see
-	// writer-panic-*): keep the combination, but rare, so that it does not eat the cases.
-	if !o.zstd && o.flags&pkg.RestartCompression != 0 && !r.Chance(1, 8) {
-		o.flags &^= pkg.RestartCompression
-	}
+	// (RestartCompression without compression used to panic in the writer: repaired in 66bed27,
+	// the combination is generated like any other)
 	return o
 }
 
